@@ -185,6 +185,8 @@ def _render(m, o):
     spec = o.get('spec')
     how = o.get('how', 'to_str')
     fl = [b(o.get('optimize', True)), b(o.get('reset_start', False)), b(o.get('reset_end', True))]
+    if how != 'to_str':
+        fl = [1, 0, 1]
     a = {'how': how, 'spec': cps(spec or ''), 'flags': fl}
     if how == 'str':
         call = lambda: str(x)
@@ -194,7 +196,31 @@ def _render(m, o):
         call = lambda: ('{:' + (spec or '') + '}').format(x)
     else:
         call = lambda: x.to_str(spec, bool(fl[0]), bool(fl[1]), bool(fl[2]))
-    return a, call, 'scalar', {'obs': lambda v: {'out': cps(v)}}
+
+    def obs(v):
+        return {'out': cps(v), 'valid': b(x.is_formatting_valid()), 'parsable': b(x.is_formatting_parsable())}
+    return a, call, 'scalar', {'obs': obs}
+
+
+@op('reparse')
+def _reparse(m, o):
+    x = m.regs[o['r']]
+    C = cls_of(m, o.get('cls', 'S'))
+    return {'cls': o.get('cls', 'S')}, (lambda: C(str(x))), 'obj', {}
+
+
+@op('simplify')
+def _simplify(m, o):
+    x = m.regs[o['r']]
+    ip = m.kinds[o['r']] == 'S'
+    A = m.lib.AnsiString
+
+    def obs(v):
+        y = x if ip else v
+        c2 = A(y)
+        c2.simplify()
+        return {'parsable': b(y.is_formatting_parsable()), 'q2': cps(str(c2)), 'rt': cps(str(A(str(y))))}
+    return {}, (lambda: x.simplify()), ('none' if ip else 'obj'), {'inplace': ip, 'obs': obs}
 
 
 @op('eq')
